@@ -65,6 +65,17 @@ func PipelineFromFile(file string, opts ...PipelineOption) (*Pipeline, error) {
 		return nil, err
 	}
 
+	for i, input := range pipeline.Inputs {
+		if input == nil {
+			return nil, fmt.Errorf("input #%d is empty", i)
+		}
+	}
+	for i, language := range pipeline.Output.Languages {
+		if language == nil {
+			return nil, fmt.Errorf("output language #%d is empty", i)
+		}
+	}
+
 	for _, opt := range opts {
 		opt(pipeline)
 	}
